@@ -162,11 +162,8 @@ func runC08(c *core.Ctx) {
 
 	c.Rule("C08.finishhook", "every Assign* of the representation assembler (bindnode._assemblerRepr) reaches a possibly-successful return only after consulting the finish hook or delegating to another assign (of the type-level assembler, of a kinded member, or AssignString for string-represented enums): a value accepted at representation level is always committed into its parent", 8)
 	if asmT != nil {
-		for _, m := range []string{"AssignNull", "AssignBool", "AssignInt", "AssignFloat", "AssignString", "AssignBytes", "AssignLink", "AssignNode", "assignUInt"} {
-			fn := p.Method(types.NewPointer(asmT), m)
-			if fn == nil || len(fn.Blocks) == 0 {
-				continue
-			}
+		for _, fn := range assignMethodsOf(p, asmT, true) {
+			m := fn.Name()
 			isHook := func(in ssa.Instruction) bool {
 				switch x := in.(type) {
 				case *ssa.UnOp:
@@ -182,7 +179,7 @@ func runC08(c *core.Ctx) {
 					} else if x.Common().IsInvoke() {
 						n = x.Common().Method.Name()
 					}
-					if strings.HasPrefix(n, "Assign") || n == "assignUInt" || n == "Copy" || n == "Finish" {
+					if strings.HasPrefix(n, "Assign") || isAssignShaped(p, x.Common().StaticCallee()) || n == "Copy" || n == "Finish" {
 						return true
 					}
 				}
